@@ -252,6 +252,7 @@ func runC01(c *Ctx) {
 	// the three read styles recompute each leaf key with the writer's (offset, last-node) convention: a reader that
 	// disagrees cannot read back what the writer stored (shared with C02, which needs it for key determinism)
 	checkOffsetConvention(c, "offset-convention")
+	checkReadAccounting(c, "read.bytes-accounted")
 }
 
 // checkWriterHandoff: ownership of the buffer given to `go pFlush`.
@@ -1278,6 +1279,8 @@ func runC03(c *Ctx) {
 	c.requireInstances("errors-surface.no-success-on-failure", 15)
 	n += checkRetryOperands(c, "errors-surface.retry-operand", p.Func("pkg/storage/localfs.localFS.Put"))
 	_ = n
+	checkVerifyAlwaysHashes(c, "mismatch-is-error.always-hashes")
+	checkWriteToWorkerExclusive(c, "verify-coverage.writeto-error-exclusive")
 }
 
 func fmtConds(conds []string) string {
